@@ -22,7 +22,7 @@ from fractions import Fraction as F
 import numpy as np
 
 PROP = 'C03'
-TARGETS = ['T2', 'T3', 'TC03pyr', 'TC03stack', 'TC03segvol', 'TC03imgvol', 'TC03wireV', 'TC03wireI', 'TC03wireS']
+TARGETS = ['T2', 'T3', 'TC03pyr', 'TC03stack', 'TC03segvol', 'TC03imgvol', 'TC03wireV', 'TC03wireI', 'TC03wireS', 'TC03single']
 LEAN_MODULES = ['HdVerif.Props.C03']
 MODEL_MODULES = ['HdVerif.Model.SegGeom']
 NAMESPACE = 'HdVerif.C03'
@@ -573,14 +573,20 @@ def model_store_req(g, n0, included, flags=None, omit=None):
     return ('storeStack', args)
 
 
-def model_read_req(positions, iop, ps, sbs, rows, cols, req=None, allow_missing=True, kind='seg'):
-    args = {'kind': kind, 'allow_missing': allow_missing, 'pos': [[rstr(x) for x in p] for p in positions], 'iop': [rstr(x) for x in iop], 'ps': [rstr(x) for x in ps],
+def model_read_req(positions, iop, ps, sbs, rows, cols, req=None, allow_missing=True, kind='seg', chan=None):
+    args = {'kind': kind, 'chan': chan, 'allow_missing': allow_missing, 'pos': [[rstr(x) for x in p] for p in positions], 'iop': [rstr(x) for x in iop], 'ps': [rstr(x) for x in ps],
             'hint': None if sbs is None else rstr(sbs), 'rows': rows, 'cols': cols}
     req = req or {'as_indices': False}
     for nm in ('slice_start', 'slice_end', 'row_start', 'row_end', 'column_start', 'column_end'):
         args[nm] = req.get(nm)
     args['as_indices'] = bool(req.get('as_indices', False))
     return ('getVolumeStack', args)
+
+
+def _chan(frames):
+    """ReferencedSegmentNumber per stored frame (None for a label map: one channel)."""
+    sn = [f[1] for f in frames]
+    return None if any(x is None for x in sn) else sn
 
 
 def impl_volume_obs(st, v):
@@ -681,7 +687,9 @@ def check_vol_case(ctx, descr, g, arr, mk, reqs, pending):
                              'stored': sorted([[float(x) for x in p] for p in stored_pos]),
                              'want': sorted([[float(x) for x in p] for p in want_pos])}, site='stored-positions')
         explicit = descr.get('placement') == 'explicit'
-        want_sbs = g['s'][0] if (not explicit or descr.get('with_sbs') or shape[0] > 1) else F(1)
+        want_sbs = g['s'][0] if (not explicit or descr.get('with_sbs') or shape[0] > 1) else None   # one plane: nothing to infer
+        if explicit and descr.get('with_sbs') and descr.get('sbs_sign', 1) < 0:
+            want_sbs = -g['s'][0]                 # a negative value given by the user is kept as given (read takes its magnitude)
         if iop != rowcos + colcos or psx != list(ps) or sbs != want_sbs:
             ctx.fail(descr, {'what': 'stored orientation / pixel measures differ from the volume',
                              'iop': [float(x) for x in iop], 'ps': [float(x) for x in psx], 'sbs': None if sbs is None else float(sbs)},
@@ -690,7 +698,7 @@ def check_vol_case(ctx, descr, g, arr, mk, reqs, pending):
             # placement handed over as plane_positions / plane_orientation / pixel_measures: the constructor infers the slice
             # spacing from ALL plane positions with the segmentation's own orientation unless the measures carry one
             reqs.append(('storeAligned', {'iop': [rstr(x) for x in rowcos + colcos], 'ps': [rstr(x) for x in ps],
-                                          'src_hint': rstr(g['s'][0]) if descr.get('with_sbs') else None,
+                                          'src_hint': rstr(g['s'][0] * descr.get('sbs_sign', 1)) if descr.get('with_sbs') else None,
                                           'all_pos': [[rstr(x) for x in apply_aff(a, (k, 0, 0))] for k in range(shape[0])],
                                           'kept': list(included)}))
         else:
@@ -745,7 +753,7 @@ def check_vol_case(ctx, descr, g, arr, mk, reqs, pending):
             full_kw = kw
         # model: read side on the stored positions (L0)
         if exact and label == ('combined' if not overlap else 'channels'):
-            add_pending(ctx, reqs, pending, model_read_req([p for p, _ in frames], iop, psx, sbs, shape[1], shape[2]),
+            add_pending(ctx, reqs, pending, model_read_req([p for p, _ in frames], iop, psx, sbs, shape[1], shape[2], chan=_chan(frames)),
                         dict(descr, read=label, what='get_volume affine/shape/placement', layer='L0'), impl_volume_obs(stv, v),
                         assemble_check(seg, frames, v.array, seg_type) if label == 'combined' else None)
     # ---- several reads on the one object, and the object after a bytes round trip
@@ -767,7 +775,7 @@ def check_vol_case(ctx, descr, g, arr, mk, reqs, pending):
                      as_indices=req['as_indices'], request_axes=''.join(ax[0] for ax in ('slice', 'row', 'column')
                                                                         if ax + '_start' in req or ax + '_end' in req))
             if exact:
-                add_pending(ctx, reqs, pending, model_read_req([p for p, _ in frames], iop, psx, sbs, shape[1], shape[2], req),
+                add_pending(ctx, reqs, pending, model_read_req([p for p, _ in frames], iop, psx, sbs, shape[1], shape[2], req, chan=_chan(frames)),
                             dict(descr, request=req, what='get_volume(sub) affine/shape/placement', layer='L0'),
                             impl_volume_obs(stv, sub),
                             assemble_check(seg, frames, sub.array, seg_type) if (stv == 'ok' and 'combine_segments' in full_kw) else None)
@@ -806,6 +814,7 @@ def build_place_case(ctx, idx):
     empties = set(range(n0)) - keep
     arr = rand_mask(r, nr, shape, nseg, layout, empties)
     with_sbs = r.random() < 0.4
+    sbs_sign = -1 if (with_sbs and ctx.rng('placesign', idx).random() < 0.3) else 1
     # source series: axial, same number of planes and frame size (what the constructor may compare with)
     src = ct_series(n0, shape[1], shape[2], slice_spacing=2.5)
     a = affine_of(g)
@@ -819,12 +828,12 @@ def build_place_case(ctx, idx):
     descr = {'stream': 'place', 'idx': idx, 'seed': ctx.seed, 'dir': g['label'], 'h': g['h'], 'exact': g['exact'],
              'shape': list(shape), 'spacing': [rstr(x) for x in g['s']], 'position': [rstr(x) for x in g['p']],
              'type': seg_type, 'nseg': nseg, 'layout': layout, 'omit': omit, 'empties': mode, 'empty_planes': sorted(empties),
-             'memory': mem, 'type_spelling': typ_spell, 'placement': 'explicit', 'with_sbs': with_sbs,
+             'memory': mem, 'type_spelling': typ_spell, 'placement': 'explicit', 'with_sbs': with_sbs, 'sbs_sign': sbs_sign,
              'parallel_to_source': parallel}
 
     def mk():
         pm = hd.PixelMeasuresSequence(pixel_spacing=geom.pixel_spacing, slice_thickness=geom.spacing_between_slices,
-                                      spacing_between_slices=geom.spacing_between_slices if with_sbs else None)
+                                      spacing_between_slices=sbs_sign * geom.spacing_between_slices if with_sbs else None)
         seg = hd.seg.Segmentation(src, passed, typ, [seg_description(i + 1) for i in range(nseg)], omit_empty_frames=omit,
                                   plane_positions=geom.get_plane_positions(), plane_orientation=geom.get_plane_orientation(),
                                   pixel_measures=pm, **_seg_kw())
@@ -946,7 +955,7 @@ def check_src_case(ctx, descr, geo, arr, mk, src, reqs, pending):
             ctx.fail(descr, 'stored orientation / pixel spacing differ from the source images', site='stored-measures')
         ms = sorted(descr.get('multiples', range(descr['n'])))
         steps = {b - a for a, b in zip(ms, ms[1:])}
-        want_sbs = (abs(F(descr['slice_spacing'])) * steps.pop() if len(steps) == 1 else None) if descr['n'] > 1 else F(1)
+        want_sbs = (abs(F(descr['slice_spacing'])) * steps.pop() if len(steps) == 1 else None) if descr['n'] > 1 else None
         if descr['kind'] == 'multiframe':
             want_sbs = abs(F(descr['slice_spacing']))
         if sbs != want_sbs:
@@ -987,7 +996,7 @@ def check_src_case(ctx, descr, geo, arr, mk, src, reqs, pending):
             if not may_refuse:
                 ctx.fail(dict(descr, read=label), f'get_volume refused: {v}', site='get_volume')
             elif exact and full is None and label == 'combined':
-                add_pending(ctx, reqs, pending, model_read_req([p for p, _ in frames], iop, psx, sbs, descr['rows'], descr['cols']),
+                add_pending(ctx, reqs, pending, model_read_req([p for p, _ in frames], iop, psx, sbs, descr['rows'], descr['cols'], chan=_chan(frames)),
                             dict(descr, read=label, what='get_volume affine/shape/placement', layer='L0'), impl_volume_obs(stv, v))
             continue
         out = np.asarray(v.array)
@@ -1003,7 +1012,7 @@ def check_src_case(ctx, descr, geo, arr, mk, src, reqs, pending):
         if full is None:
             full, full_kw = v, kw
             if exact:
-                add_pending(ctx, reqs, pending, model_read_req([p for p, _ in frames], iop, psx, sbs, descr['rows'], descr['cols']),
+                add_pending(ctx, reqs, pending, model_read_req([p for p, _ in frames], iop, psx, sbs, descr['rows'], descr['cols'], chan=_chan(frames)),
                             dict(descr, read=label, what='get_volume affine/shape/placement', layer='L0'), impl_volume_obs(stv, v),
                             assemble_check(seg, frames, v.array, seg_type) if label == 'combined' else None)
     rv = ctx.rng('srcvar2', descr['idx'])
@@ -1024,7 +1033,7 @@ def check_src_case(ctx, descr, geo, arr, mk, src, reqs, pending):
             ctx.case(nontrivial_key=('srcsub', tuple(full.spatial_shape), tuple(sorted(req.items()))) if (valid and stv == 'ok') else None,
                      stream='src/sub', request_valid=valid, outcome='ok' if stv == 'ok' else 'refused', as_indices=req['as_indices'])
             if exact:
-                add_pending(ctx, reqs, pending, model_read_req([p for p, _ in frames], iop, psx, sbs, descr['rows'], descr['cols'], req),
+                add_pending(ctx, reqs, pending, model_read_req([p for p, _ in frames], iop, psx, sbs, descr['rows'], descr['cols'], req, chan=_chan(frames)),
                             dict(descr, request=req, what='get_volume(sub) affine/shape/placement', layer='L0'),
                             impl_volume_obs(stv, sub),
                             assemble_check(seg, frames, sub.array, seg_type) if (stv == 'ok' and 'combine_segments' in full_kw) else None)
@@ -1052,7 +1061,14 @@ def build_img_case(ctx, idx):
         full_t = r.random() < 0.5
         ds, tpm = slide_image(total_r, total_c, tr, tc, tiled_full=full_t, origin=[float(x) for x in origin],
                               pixel_spacing=[float(x) for x in ps], orientation=ori, rng=nprng)
-        descr.update(total=[total_r, total_c], tile=[tr, tc], tiled_full=full_t)
+        rs = ctx.rng('imgsign', idx)
+        sign_mode = 'pos'
+        if rs.random() < 0.25:
+            sign_mode = 'neg'
+            ds.SharedFunctionalGroupsSequence[0].PixelMeasuresSequence[0].SpacingBetweenSlices = -float(r.choice(SPACINGS))
+        descr.update(total=[total_r, total_c], tile=[tr, tc], tiled_full=full_t, spacing_sign=sign_mode,
+                     hint=str(F(float(ds.SharedFunctionalGroupsSequence[0].PixelMeasuresSequence[0].SpacingBetweenSlices)))
+                     if sign_mode == 'neg' else None)
         planes = [(origin, tpm)]
         pixels = tpm[None]
         shape = (1, total_r, total_c)
@@ -1081,7 +1097,31 @@ def build_img_case(ctx, idx):
         elif kind == 'multiframe' and rv.random() < 0.3:
             del ds.SharedFunctionalGroupsSequence[0].PixelMeasuresSequence[0].SpacingBetweenSlices
             hint = None
-        descr.update(n=n, rows=rows, cols=cols, order=order, slice_spacing=rstr(ss), hint=None if hint is None else rstr(hint))
+        # sign / zero of the recorded spacing (negative values occur in some IODs; only the magnitude may matter; 0 is
+        # no spacing: both get_volume and get_volume_geometry must refuse it)
+        rs = ctx.rng('imgsign', idx)
+        sign_mode = 'pos'
+        if hint is not None:
+            x = rs.random()
+            if x < 0.25:
+                sign_mode, hint = 'neg', -hint
+            elif x < 0.33:
+                sign_mode, hint = 'zero', F(0)
+            if sign_mode != 'pos':
+                if kind == 'single':
+                    ds.SpacingBetweenSlices = float(hint)
+                else:
+                    ds.SharedFunctionalGroupsSequence[0].PixelMeasuresSequence[0].SpacingBetweenSlices = float(hint)
+        # two frames at one position: a geometry is still reported, get_volume must refuse (frames not distinguishable)
+        dup = False
+        if kind == 'multiframe' and n >= 2 and rs.random() < 0.12:
+            dup = True
+            pf = ds.PerFrameFunctionalGroupsSequence
+            pf[n - 1].PlanePositionSequence[0].ImagePositionPatient = list(pf[0].PlanePositionSequence[0].ImagePositionPatient)
+            pos[n - 1] = list(pos[0])
+            planes = [(pos[i], pixels[i]) for i in range(n)]
+        descr.update(n=n, rows=rows, cols=cols, order=order, slice_spacing=rstr(ss), hint=None if hint is None else rstr(hint),
+                     spacing_sign=sign_mode, duplicate_position=dup)
         shape = (n, rows, cols)
     mk = lambda: hd.Image.from_dataset(ds, copy=False)  # noqa: E731
     return descr, (rowcos, colcos, ps, planes), shape, mk
@@ -1098,7 +1138,8 @@ def check_img_case(ctx, descr, geo, shape, mk, reqs, pending):
     exact = descr['exact']
     r = ctx.rng('imgreq', descr['idx'])
     st, im = _fetch(mk)
-    hkey = dict(stream='img', source=descr['kind'], exact=exact, n0=shape[0])
+    hkey = dict(stream='img', source=descr['kind'], exact=exact, n0=shape[0], spacing_sign=descr.get('spacing_sign'),
+                duplicate_position=descr.get('duplicate_position', False))
     if st != 'ok':
         ctx.case(outcome='open-refused', **hkey)
         ctx.note(f'img {descr["idx"]}: generator image not accepted by Image.from_dataset: {im}')
@@ -1106,12 +1147,34 @@ def check_img_case(ctx, descr, geo, shape, mk, reqs, pending):
     kw = dict(apply_modality_transform=False, apply_real_world_transform=False, apply_presentation_lut=False)
     stv, v = _fetch(im.get_volume, **kw)
     ctx.case(sample=descr if ctx.evaluations % 211 == 0 else None,
-             nontrivial_key=('img', descr['kind'], descr['dir'], shape, descr.get('tile'), descr.get('tiled_full')) if stv == 'ok' else None,
+             nontrivial_key=('img', descr['kind'], descr['dir'], shape, descr.get('tile'), descr.get('tiled_full'),
+                             descr.get('spacing_sign')) if stv == 'ok' else None,
              outcome='ok' if stv == 'ok' else 'refused', **hkey)
+    must_refuse = descr.get('spacing_sign') == 'zero' or descr.get('duplicate_position')
+    if must_refuse:
+        # the model must refuse too; what the image reports for itself must not contradict the refusal with a volume-less
+        # geometry of another kind: for spacing 0 both calls refuse
+        if stv == 'ok':
+            ctx.fail(descr, 'get_volume accepted ' + ('a recorded slice spacing of 0' if descr.get('spacing_sign') == 'zero'
+                                                        else 'two frames at one position'), site='Image.get_volume')
+        if descr.get('spacing_sign') == 'zero':
+            stg0, g0 = _fetch(im.get_volume_geometry)
+            if stg0 == 'ok' and g0 is not None:
+                ctx.fail(descr, {'what': 'a geometry is reported for a recorded slice spacing of 0 although get_volume refuses',
+                                 'geometry_affine': g0.affine.tolist()}, site='Image.get_volume-vs-geometry')
+        if exact and descr['kind'] != 'slide':
+            reqs.append(model_read_req([p for p, _ in planes], rowcos + colcos, ps, None if descr.get('hint') is None else F(descr['hint']),
+                                       shape[1], shape[2], allow_missing=False, kind='image'))
+            pending.append((dict(descr, what='Image.get_volume affine/shape', layer='L0'), impl_volume_obs(stv, v)))
+        return
     if stv != 'ok':
         ctx.fail(descr, f'Image.get_volume refused a regular image: {v}', site='Image.get_volume')
         return
-    for b in positional_oracle(np.asarray(v.array).astype(np.int64), v.affine, planes, rowcos, colcos, ps, exact, 'image')[:3]:
+    bad = positional_oracle(np.asarray(v.array).astype(np.int64), v.affine, planes, rowcos, colcos, ps, exact, 'image')
+    if descr['kind'] == 'slide' and descr.get('spacing_sign') == 'neg':
+        # a negative recorded spacing of a single-plane slide image only turns the (unused) stacking direction
+        bad = [b for b in bad if 'right-handed' not in b]
+    for b in bad[:3]:
         ctx.fail(descr, b, site='Image.get_volume/position')
     stg, geom = _fetch(im.get_volume_geometry)
     if stg != 'ok' or geom is None:
@@ -1120,9 +1183,15 @@ def check_img_case(ctx, descr, geo, shape, mk, reqs, pending):
         ctx.fail(descr, {'what': 'volume returned does not have the geometry the image reports',
                          'volume_affine': v.affine.tolist(), 'geometry_affine': geom.affine.tolist()}, site='Image.get_volume-vs-geometry')
     tiled = descr['kind'] == 'slide'
+    if exact and descr['kind'] == 'single' and stg == 'ok' and geom is not None:
+        reqs.append(('volumeGeometrySingle', {'pos': [rstr(x) for x in planes[0][0]], 'iop': [rstr(x) for x in rowcos + colcos],
+                                              'ps': [rstr(x) for x in ps], 'hint': descr.get('hint')}))
+        pending.append((dict(descr, what='single-frame get_volume_geometry affine', layer='L0'),
+                        ('ok', [[rstr(fr(geom.affine[i, j])) for j in range(4)] for i in range(3)])))
+    thint = None if descr.get('hint') is None else F(descr['hint'])
     if exact:
         if tiled:
-            reqs.append(model_tiled_req(planes[0][0], rowcos + colcos, ps, None, shape[1], shape[2], None, kind='image'))
+            reqs.append(model_tiled_req(planes[0][0], rowcos + colcos, ps, thint, shape[1], shape[2], None, kind='image'))
         else:
             reqs.append(model_read_req([p for p, _ in planes], rowcos + colcos, ps,
                                        None if descr.get('hint') is None else F(descr['hint']), shape[1], shape[2],
@@ -1155,7 +1224,7 @@ def check_img_case(ctx, descr, geo, shape, mk, reqs, pending):
                  source=descr['kind'])
         if exact:
             if tiled:
-                reqs.append(model_tiled_req(planes[0][0], rowcos + colcos, ps, None, shape[1], shape[2], req, kind='image'))
+                reqs.append(model_tiled_req(planes[0][0], rowcos + colcos, ps, thint, shape[1], shape[2], req, kind='image'))
             else:
                 reqs.append(model_read_req([p for p, _ in planes], rowcos + colcos, ps,
                                            None if descr.get('hint') is None else F(descr['hint']),
@@ -1437,7 +1506,7 @@ def build_pyr_case(ctx, idx):
     typ, typ_spell = spell_type(rv, seg_type)
     descr.update(memory=mem, type_spelling=typ_spell)
     if mode == 'factors':
-        fs = sorted({r.choice([1.5, 2.0, 2.0, 2.5, 3.0, 4.0, 4.0, 5.0]) for _ in range(r.randint(1, 3))})
+        fs = sorted({r.choice([1.1, 1.5, 1.8, 2.0, 2.0, 2.1, 2.5, 3.0, 3.3, 4.0, 4.0, 5.0]) for _ in range(r.randint(1, 3))})
         fs = [f for f in fs if int(rows / f) >= 1 and int(cols / f) >= 1]
         descr['factors'] = fs
         fsp = rv.choice(['list', 'tuple', 'ndarray', 'ints'])
@@ -1513,6 +1582,61 @@ def check_pyr_case(ctx, descr, ps, mk, reqs, pending):
                         ('ok', [rstr(x) for x in sp])))
 
 
+# ---------------------------------------------------------------------------------------------- stream: pyrsrc (several source images)
+def run_pyrsrc(ctx, reqs, pending):
+    """Pyramids over a source PYRAMID (several source images of one series sharing a PyramidUID): the pixel measures of
+    every level are copied from its source image; the levels cover the same extent when the sources do.  One pixel array
+    (the library resamples it to the source sizes) or one per level."""
+    import highdicom as hd
+    from gen.sources import seg_description, slide_image
+    for idx in range(ctx.n(20, 200)):
+        r = ctx.rng('pyrsrc', idx)
+        nr = ctx.np_rng('pyrsrcpix', idx)
+        nlev = r.choice([2, 2, 3])
+        f = 2 ** (nlev - 1)
+        rows, cols = f * r.randint(2, 8), f * r.randint(2, 8)
+        ps = (r.choice(SPACINGS), r.choice(SPACINGS))
+        rank = r.choice([2, 3, 4])
+        seg_type = r.choice(['BINARY', 'LABELMAP', 'FRACTIONAL'])
+        srcs, sizes = [], []
+        for lv in range(nlev):
+            rl, cl = rows // 2 ** lv, cols // 2 ** lv
+            ds, _ = slide_image(rl, cl, r.randint(2, 6), r.randint(2, 6), pixel_spacing=[float(ps[0] * 2 ** lv), float(ps[1] * 2 ** lv)])
+            if srcs:
+                for kw_ in ('StudyInstanceUID', 'SeriesInstanceUID', 'FrameOfReferenceUID'):
+                    setattr(ds, kw_, getattr(srcs[0], kw_))
+            ds.PyramidUID = srcs[0].PyramidUID if srcs else hd.UID()
+            srcs.append(ds)
+            sizes.append((rl, cl))
+        base = (nr.random((rows, cols)) < 0.4).astype(np.uint8)
+        base[0, 0] = 1
+
+        def shape_it(m):
+            return m if rank == 2 else (m[None] if rank == 3 else m[None, :, :, None])
+        per_level = r.random() < 0.5
+        arrs = [shape_it(np.ascontiguousarray(base[::2 ** lv, ::2 ** lv])) for lv in range(nlev)] if per_level else [shape_it(base)]
+        descr = {'stream': 'pyrsrc', 'idx': idx, 'seed': ctx.seed, 'rank': rank, 'rows': rows, 'cols': cols, 'levels': nlev,
+                 'type': seg_type, 'per_level_arrays': per_level, 'pixel_spacing': [rstr(x) for x in ps]}
+        kw = dict(series_instance_uid=hd.UID(), series_number=2, manufacturer='m', manufacturer_model_name='mm',
+                  software_versions='1', device_serial_number='1')
+        st, segs = _fetch(hd.seg.create_segmentation_pyramid, srcs, arrs, seg_type, [seg_description(1)], **kw)
+        ctx.case(stream='pyrsrc', outcome='ok' if st == 'ok' else 'refused', rank=rank, per_level_arrays=per_level, levels=nlev,
+                 nontrivial_key=('pyrsrc', rank, rows, cols, nlev, per_level, seg_type) if st == 'ok' else None)
+        if st != 'ok':
+            ctx.fail(descr, f'pyramid over a source pyramid refused: {segs}', site='create_segmentation_pyramid/sources')
+            continue
+        ext0 = (rows * ps[0], cols * ps[1])
+        for lv, sg in enumerate(segs):
+            pm = sg.SharedFunctionalGroupsSequence[0].PixelMeasuresSequence[0]
+            sp = [fr(x) for x in pm.PixelSpacing]
+            rl, cl = int(sg.TotalPixelMatrixRows), int(sg.TotalPixelMatrixColumns)
+            if (rl, cl) != sizes[lv] or sp != [ps[0] * 2 ** lv, ps[1] * 2 ** lv]:
+                ctx.fail(dict(descr, level=lv), {'what': 'level does not record the size / pixel spacing of its source image',
+                                                 'size': [rl, cl], 'spacing': [float(x) for x in sp]}, site='pyramid/sources')
+            elif (rl * sp[0], cl * sp[1]) != ext0:
+                ctx.fail(dict(descr, level=lv), 'level does not cover the extent of level 0', site='pyramid/sources')
+
+
 # ---------------------------------------------------------------------------------------------- stream: helper grid (T2, L2 + L0)
 def run_helpers(ctx, reqs, pending):
     """`_standardize_slice_indices` against (a) the translated definition (L2) and (b) the Python-slice meaning (oracle),
@@ -1539,6 +1663,46 @@ def run_helpers(ctx, reqs, pending):
                     reqs.append(('stdSliceIndices', {'start': s, 'end': e, 'n': n, 'as_indices': ai}))
                     pending.append((dict(case, layer='L2'), ('ok', [int(val[0]), int(val[1])]) if st == 'ok' else ('err', 'refused')))
     ctx.exhaustive.append(f'_standardize_slice_indices: n in 1..{nmax}, start/end in None or -n-2..n+2, both conventions')
+
+
+def run_volume_positions_helper(ctx, reqs, pending):
+    """L2: the hand-written model of `spatial.get_volume_positions` against the real function on position sets that the
+    object streams do not produce: in-plane shifted frames (equal distances, different positions), off-grid multiples,
+    duplicates, hints that are negative / zero / wrong, both branches, duplicates allowed or not."""
+    from highdicom.spatial import get_volume_positions
+    iops = [[1, 0, 0, 0, 1, 0], [0, 1, 0, 0, 0, -1], [0, 0, 1, 1, 0, 0], [0, -1, 0, -1, 0, 0]]
+    fixed = [([(0, 0, -1), (0, 0, 0), (5, 0, 0)], iops[0], 1.0, True, True)]         # witness of the audit (C03-5)
+    for idx in range(ctx.n(300, 3000) + len(fixed)):
+        if idx < len(fixed):
+            pos, iop, hint, am, ad = fixed[idx]
+        else:
+            r = ctx.rng('vphelper', idx)
+            n = r.randint(1, 6)
+            base = [r.randint(-4, 4) / 2 for _ in range(3)]
+            iop = r.choice(iops)
+            nrm = np.cross(iop[3:], iop[:3])
+            pos = []
+            for k in range(n):
+                m = r.choice([0, 1, 2, 3, 4, 5]) * r.choice([0.5, 1.0, 1.5]) if r.random() < 0.3 else r.randint(0, 5) * 1.0
+                p_ = [base[j] + m * nrm[j] for j in range(3)]
+                if r.random() < 0.15:
+                    p_[r.randrange(3)] += r.choice([0.5, 1.0, 5.0])
+                pos.append(tuple(float(x) for x in p_))
+            if r.random() < 0.2:
+                pos.append(pos[0])
+            hint = r.choice([None, None, 1.0, 0.5, 2.0, -1.0, 0.0])
+            am, ad = r.random() < 0.6, r.random() < 0.7
+        try:
+            sp, vp = get_volume_positions(pos, iop, allow_missing_positions=am, allow_duplicate_positions=ad, spacing_hint=hint)
+            impl = ('ok', None if vp is None else {'spacing': rstr(fr(sp)), 'positions': [int(x) for x in vp]})
+        except Exception:  # noqa: BLE001
+            impl = ('err', 'refused')
+        ctx.case(stream='helper/volume_positions', outcome=('none' if impl == ('ok', None) else impl[0]),
+                 allow_missing=am, hint='none' if hint is None else ('neg' if hint < 0 else 'zero' if hint == 0 else 'pos'))
+        reqs.append(('volumePositions', {'pos': [[rstr(fr(x)) for x in p_] for p_ in pos], 'iop': [rstr(F(x)) for x in iop],
+                                         'hint': None if hint is None else rstr(fr(hint)), 'allow_missing': am, 'allow_dup': ad}))
+        pending.append(({'helper': 'get_volume_positions', 'positions': [list(p_) for p_ in pos], 'iop': iop, 'hint': hint,
+                         'allow_missing': am, 'allow_duplicates': ad, 'layer': 'L2'}, impl))
 
 
 def run_slice_requests_exhaustive(ctx, reqs, pending):
@@ -1692,6 +1856,7 @@ def run(ctx):
         except Exception as e:  # noqa: BLE001
             ctx.note(f'corpus case {os.path.basename(f)} could not run: {e}')
     run_helpers(ctx, reqs, pending)
+    run_volume_positions_helper(ctx, reqs, pending)
     run_slice_requests_exhaustive(ctx, reqs, pending)
     run_vol(ctx, reqs, pending)
     run_place(ctx, reqs, pending)
@@ -1700,6 +1865,7 @@ def run(ctx):
     run_tiled(ctx, reqs, pending)
     run_tiledpos(ctx, reqs, pending)
     run_pyr(ctx, reqs, pending)
+    run_pyrsrc(ctx, reqs, pending)
     answers = ctx.model(reqs)
     if answers is None:
         return
